@@ -185,7 +185,11 @@ def mutate(s, m):
     elif cl == "select_cycle":
         pos = m.get("pos", "")
         use = "ENTITY eu;\n  item : s1;\nWHERE\n  wu : %s > 0;\nEND_ENTITY;\n"
-        if pos == "":
+        if pos.startswith("outside:"):
+            nm = pos.split(":", 1)[1]
+            body = ("TYPE shape_item = SELECT (curve_item, e1);\nEND_TYPE;\nTYPE curve_item = SELECT (shape_item, e2);\nEND_TYPE;\n"
+                    "TYPE %s = SELECT (shape_item, e3);\nEND_TYPE;\n" % nm)
+        elif pos == "":
             body = "TYPE s1 = SELECT (s2);\nEND_TYPE;\nTYPE s2 = SELECT (s1);\nEND_TYPE;\n"
         elif pos == "entity_first_dot":
             body = "TYPE s1 = SELECT (e1, s2);\nEND_TYPE;\nTYPE s2 = SELECT (e2, s1);\nEND_TYPE;\n" + use % "item.a1"
